@@ -1,6 +1,6 @@
 SPECIFICATION Spec
 CONSTANTS
-  Scenarios <- QuickScenarios
+  Scenarios <- C07QuickScenarios
   Ticks = TRUE
   SkipFix = TRUE
   CctFix = TRUE
